@@ -1,0 +1,74 @@
+//go:build verif
+
+package filterstorage
+
+import (
+	"context"
+	"net/netip"
+	"slices"
+
+	"github.com/AdguardTeam/AdGuardDNS/internal/filter"
+	"github.com/miekg/dns"
+)
+
+// VerifC13RuleListIDs returns the sorted IDs of the rule lists currently in
+// use.
+func (s *Default) VerifC13RuleListIDs() (ids []string) {
+	s.ruleListsMu.RLock()
+	defer s.ruleListsMu.RUnlock()
+
+	for id := range s.ruleLists {
+		ids = append(ids, string(id))
+	}
+
+	slices.Sort(ids)
+
+	return ids
+}
+
+// VerifC13RuleListMatch returns true if the rule list with the given ID is in
+// use and has a rule matching an A request for host.
+func (s *Default) VerifC13RuleListMatch(id, host string) (ok bool) {
+	s.ruleListsMu.RLock()
+	rl := s.ruleLists[filter.ID(id)]
+	s.ruleListsMu.RUnlock()
+
+	if rl == nil {
+		return false
+	}
+
+	return rl.DNSResult(netip.Addr{}, "", host, dns.TypeA, false) != nil
+}
+
+// VerifC13RuleListRulesCount returns the number of rules in the rule list with
+// the given ID or -1 if there is no such list.
+func (s *Default) VerifC13RuleListRulesCount(id string) (n int) {
+	s.ruleListsMu.RLock()
+	rl := s.ruleLists[filter.ID(id)]
+	s.ruleListsMu.RUnlock()
+
+	if rl == nil {
+		return -1
+	}
+
+	return rl.RulesCount()
+}
+
+// VerifC13ServiceMatch returns true if the blocked-service filter currently
+// has a service with the given ID whose rules match an A request for host.
+func (s *Default) VerifC13ServiceMatch(svcID, host string) (ok bool) {
+	if s.services == nil {
+		return false
+	}
+
+	rls := s.services.RuleLists(context.Background(), []filter.BlockedServiceID{
+		filter.BlockedServiceID(svcID),
+	})
+	for _, rl := range rls {
+		if rl.DNSResult(netip.Addr{}, "", host, dns.TypeA, false) != nil {
+			return true
+		}
+	}
+
+	return false
+}
